@@ -9,6 +9,12 @@ CLAIMS = {
   note="Assumed: json.Marshal returns non-nil bytes when err == nil (valid UTF-8 JSON is json.Marshal's own contract, not re-proved); errors.New / io.EOF dynamic type; caller-supplied Ingester/FormatReader implementations satisfy their interface contracts and do not call back into the calling package; ParseNode's write footprint (SSA frame analysis); sequential execution.",
   technique="contract-based deductive verification: WP/symbolic execution over go/ssa + SMT (z3/cvc5)",
   design_ref="§6 C01"),
+ "C19": dict(
+  category="proof",
+  text="Deductive proof over the real customfuncs date-time functions, for all argument values: parseDateTime computes exactly the documented zone decision table (a zone in the text wins over fromTZ; fromTZ overwrites keeping the wall clock; toTZ converts an instant that has a zone) as a function pdT of the dependencies' results, with lemmas restating the table; empty input gives empty output; every callee error gives an error and the empty string; dateTimeToEpoch returns sec (SECOND) or sec*1000 + floor(nsec/1e6) (MILLISECOND) of that instant and epochToDateTimeRFC3339 formats an instant whose second is floor(n/1000); every integer operation in the two epoch functions carries an int64-range obligation (checks overflow), so the result is exact over the whole year range 1..9999.",
+  note="Assumed (specs/extern/time.gvc): abstract time (sec, nsec in [0,1e9), wall, zone); time.Unix normalisation, Unix/UnixNano/Nanosecond/In/Format/Parse; go-corelib SmartParse returns an instant in years 0..9999, OverwriteTZ keeps the wall clock, ConvertTZ keeps the instant; strconv.ParseInt/FormatInt inverse; layout parsing and the IANA database are entirely inside those assumptions.",
+  technique="contract-based deductive verification: WP/symbolic execution over go/ssa + SMT, integer arithmetic with explicit int64 range obligations",
+  design_ref="§6 C19"),
 }
 
 NOT_BUILT = "check not built yet in this session (planned, see DESIGN.md §6); not claimed until its obligations discharge on the unchanged tree"
